@@ -20,6 +20,7 @@ import (
 	"bytes"
 	"encoding/binary"
 	"io"
+	"math"
 
 	"github.com/codenotary/immudb/pkg/errors"
 )
@@ -55,15 +56,23 @@ func (r *msgReceiver) ReadFully() (message []byte, metadata map[string][]byte, e
 		return nil, firstChunk.Metadata, errors.New(ErrChunkTooSmall)
 	}
 
-	msgSize := int(binary.BigEndian.Uint64(firstChunk.Content))
+	announcedSize := binary.BigEndian.Uint64(firstChunk.Content)
+	if announcedSize > math.MaxInt {
+		return nil, firstChunk.Metadata, errors.New(ErrMessageTooLarge)
+	}
 
-	b := make([]byte, msgSize)
-	read := 0
+	msgSize := int(announcedSize)
 
-	copy(b, firstChunk.Content[8:])
-	read += len(firstChunk.Content) - 8
+	// the announced size comes from the peer: the buffer grows with the data actually received
+	content := firstChunk.Content[8:]
+	if len(content) > msgSize {
+		content = content[:msgSize]
+	}
 
-	for read < msgSize {
+	b := make([]byte, len(content), minInt(msgSize, 2*len(content)+MinChunkSize))
+	copy(b, content)
+
+	for len(b) < msgSize {
 		chunk, err := r.stream.Recv()
 		if err == io.EOF {
 			break
@@ -72,15 +81,26 @@ func (r *msgReceiver) ReadFully() (message []byte, metadata map[string][]byte, e
 			return b, firstChunk.Metadata, err
 		}
 
-		copy(b[read:], chunk.Content)
-		read += len(chunk.Content)
+		content := chunk.Content
+		if len(content) > msgSize-len(b) {
+			content = content[:msgSize-len(b)]
+		}
+
+		b = append(b, content...)
 	}
 
-	if read < msgSize {
+	if len(b) < msgSize {
 		return b, firstChunk.Metadata, io.EOF
 	}
 
 	return b, firstChunk.Metadata, nil
+}
+
+func minInt(a, b int) int {
+	if a < b {
+		return a
+	}
+	return b
 }
 
 // Read read fill message with received data and return the number of read bytes or error. If no message is present it returns 0 and io.EOF. If the message is complete it returns 0 and nil, in that case successive calls to Read will returns a new message.
@@ -119,7 +139,11 @@ func (r *msgReceiver) Read(data []byte) (n int, err error) {
 			if err != nil {
 				return 0, err
 			}
-			r.tl = int(binary.BigEndian.Uint64(trailer))
+			announcedSize := binary.BigEndian.Uint64(trailer)
+			if announcedSize > math.MaxInt {
+				return 0, errors.New(ErrMessageTooLarge)
+			}
+			r.tl = int(announcedSize)
 		}
 
 		// no more data in stream but buffer is not enough large to contains the expected value
